@@ -733,8 +733,10 @@ def hand_plans(v):
     def loop0_ref(outs):
         body = helper.make_graph(
             [helper.make_node("Identity", ["c_in"], ["c_out"]), helper.make_node("Add", ["i", "i"], ["s_out"])], "body",
-            [helper.make_value_info("i", L.typeproto_of_tspec(t_i)), helper.make_value_info("c_in", L.typeproto_of_tspec(t_b))],
-            [helper.make_value_info("c_out", L.typeproto_of_tspec(t_b)), helper.make_value_info("s_out", L.typeproto_of_tspec(t_i))])
+            # formal parameters typed int64[1] / bool[1] as spox's loop() prescribes for its body (ONNX's convention is
+            # scalars; that choice belongs to the constructor - C19/C06 - and is reported in the notes, not judged here)
+            [helper.make_value_info("i", L.typeproto_of_tspec(["T", I, [1]])), helper.make_value_info("c_in", L.typeproto_of_tspec(["T", B, [1]]))],
+            [helper.make_value_info("c_out", L.typeproto_of_tspec(["T", B, [1]])), helper.make_value_info("s_out", L.typeproto_of_tspec(["T", I, [1]]))])
         n = helper.make_node("Loop", ["", ""], outs, body=body)
         g = helper.make_graph([n], "ref", [], [helper.make_value_info(o, onnx.TypeProto()) for o in outs])
         return helper.make_model(g, opset_imports=[helper.make_operatorsetid("", v)])
@@ -1134,6 +1136,8 @@ def parallel_eval(specs, nproc):
         if pid == 0:
             os.close(r)
             try:
+                dn = os.open(os.devnull, os.O_WRONLY)
+                os.dup2(dn, 2)   # ONNX's C++ assertion messages of deliberately ill-typed nodes
                 with os.fdopen(w, "wb") as out:
                     global PHASE
 
